@@ -5,7 +5,7 @@ from fw import Corr, Failure, cz, cbool, clist, copt
 
 TITLE = 'Bus, buffer and node-id allocation is safe and complete'
 TRANSLATED = ['Gen_builtins']          # props/C16.v evaluates the regenerated py_wrap at the node-id wrap boundary (Example)
-MODEL_TARGETS = ['model/Alloc.vo', 'model/NodeId.vo', 'model/AllocReserve.vo']
+MODEL_TARGETS = ['model/Alloc.vo', 'model/NodeId.vo', 'model/AllocReserve.vo', 'model/ServerAlloc.vo']
 ALLOWED_AXIOMS = []
 TRUSTED = [
     'hand-written models coq/model/Alloc.v (ContiguousBlockAllocator) and coq/model/NodeId.v (NodeIDAllocator), tied to '
@@ -113,7 +113,15 @@ def concrete(ops, entries):
 
 
 HEADER = ('From Coq Require Import ZArith List Bool. Import ListNotations.\n'
-          'Require Import SC3.lib.PyNum SC3.model.Alloc SC3.model.NodeId.\nOpen Scope Z_scope.\n')
+          'Require Import SC3.lib.PyNum SC3.model.Alloc SC3.model.NodeId SC3.model.ServerAlloc.\nOpen Scope Z_scope.\n')
+
+OPT_FIELDS = ('audio_buses', 'control_buses', 'buffers', 'input_channels', 'output_channels', 'reserved_audio_buses',
+              'reserved_control_buses', 'reserved_buffers', 'max_logins', 'initial_node_id')
+KIND_NO = {'audio': 0, 'control': 1, 'buffer': 2}
+
+
+def coq_opts(o):
+    return '(mkO %s)' % ' '.join(cz(o[f]) for f in OPT_FIELDS)
 
 
 def correspond(ctx):
@@ -369,9 +377,19 @@ def correspond(ctx):
                 ops += [['F', base + 2 + n], ['F', base + 3], ['F', base + 4], [kind, 2, 0], [kind, 1, 1], [kind, 1, 0]]
             ops += [['N', 7]]
             scases.append({'opts': o, 'client': k, 'ops': ops})
+    # (a') options changed while the server lives: nothing is rebuilt until _set_client_id, which then uses the CURRENT options
+    for _ in range(ctx.n(3, 20)):
+        o1, o2, o3 = rand_opts(), rand_opts(), rand_opts()
+        ops = [['A', 2, 0], ['C', 1, 0], ['B', 1, 0], ['O', dict(o2)], ['A', 1, 0], ['R', o2['max_logins']], ['R', -1],
+               ['R', rng.randrange(o2['max_logins'])]]
+        pc = per_client(o2)
+        ops += [['A', pc['A'], 0], ['C', pc['C'], 0], ['B', pc['B'], 0], ['A', 1, 0], ['F', 5], ['F', 0], ['N', 3], ['O', dict(o3)],
+                ['C', 1, 0], ['R', o3['max_logins'] - 1], ['A', 1, 0], ['C', 1, 0], ['B', 1, 0], ['R', o3['max_logins'] + 1], ['A', 2, 1]]
+        scases.append({'opts': o1, 'client': rng.randrange(o1['max_logins']), 'ops': ops})
     # (b) random object-level histories
     for _ in range(ctx.n(14, 80)):
         opts = rand_opts()
+        cur = opts
         ops = []
         for _ in range(rng.randint(5, 45)):
             r = rng.random()
@@ -387,14 +405,18 @@ def correspond(ctx):
             elif r < 0.94:
                 ops.append(['Bx'])
             elif r < 0.96:
-                ops.append(['R', rng.randrange(opts['max_logins'])])
-            elif r < 0.98:
+                ops.append(['R', rng.choice([rng.randrange(cur['max_logins']), rng.randrange(cur['max_logins']), rng.randrange(cur['max_logins']), -1, cur['max_logins']])])
+            elif r < 0.97:
+                cur = rand_opts()
+                ops.append(['O', dict(cur)])
+                ops.append(['R', rng.choice([rng.randrange(cur['max_logins']), cur['max_logins']])])
+            elif r < 0.985:
                 ops.append(['D', rng.choice([1, 2]), rng.randrange(1000)])
             else:
                 ops.append(['N', rng.randint(1, 6)])
         scases.append({'opts': opts, 'client': rng.randrange(opts['max_logins']), 'ops': ops})
     sres = ctx.impl('c16_server', {'cases': scases})['cases']
-    sitems, sinfo, snode = [], [], []
+    sitems, sinfo, snode, scitems, scinfo = [], [], [], [], []
     leak_seen = False
     for sc, sr in zip(scases, sres):
         if 'fatal' in sr or sr.get('errors'):
@@ -417,7 +439,7 @@ def correspond(ctx):
             snode.append('((%s, %s, (Some %s), %d%%nat), (%s, %s, %s, %s))' % (cz(nd['user']), cz(nd['init']), cz(nd['temp0']), len(nd['ids']),
                          clist([cz(x) for x in nd['ids']]), cz(nd['temp']), cz(nd['mask']), cz(nd['id_offset'])))
             c.count('server:node-ids', len(nd['ids']))
-            if nd['user'] != nd['client'] or nd['init'] != o['initial_node_id']:
+            if nd['user'] != nd['client'] or nd['init'] != nd['built_init']:
                 c.failures.append(Failure('correspondence', 'server node allocator not built from client id / initial_node_id: %s' % nd, replay={'server_case': sc}))
         totals = {'audio': (o['audio_buses'], io, o['reserved_audio_buses']), 'control': (o['control_buses'], 0, o['reserved_control_buses']),
                   'buffer': (o['buffers'], 0, o['reserved_buffers'])}
@@ -429,8 +451,8 @@ def correspond(ctx):
             if any(not e[6] for e in ents):
                 c.failures.append(Failure('correspondence', 'identity model broken (server %s allocator)' % which, replay={'server_case': sc}))
             sz, p, off = seg['params']
-            sitems.append('((%s, %s, %s, %s, %s), (%s, %s, %s), %s, %s)' % (
-                cz(total), cz(ioff), cz(o['max_logins']), cz(resv), cz(seg['client']), cz(sz), cz(p), cz(off),
+            sitems.append('(%s, %s, %s, (%s, %s, %s), %s, %s)' % (
+                coq_opts(seg['opts']), cz(KIND_NO[which]), cz(seg['client']), cz(sz), cz(p), cz(off),
                 coq_ops(cops), coq_entries(ents)))
             sinfo.append((sc, which, {'size': sz, 'pos': p, 'off': off, 'ops': cops}))
             c.evaluations += len(cops)
@@ -441,13 +463,27 @@ def correspond(ctx):
                 c.nontriv(json.dumps([sc['opts'], seg['client'], which, cops]))
         for op in sc['ops']:
             c.count('server-op:' + op[0])
-    sbad, serrs = fw.check_shards(ctx, 'srv', HEADER, sitems, 'Eval vm_compute in bad_idx (check_part true) cases.', shard=40)
+        for e in sr.get('setclient', []):
+            scitems.append('(%s, %s, %s, (%s, %s))' % (coq_opts(e['opts']), cz(e['c0']), cz(e['v']), cz(e['c1']), cbool(e['rebuilt'])))
+            scinfo.append((sc, e))
+            c.count('setclient:' + ('accepted' if e['rebuilt'] else 'refused'))
+    sbad, serrs = fw.check_shards(ctx, 'srv', HEADER, sitems, 'Eval vm_compute in bad_idx check_srv_seg cases.', shard=40)
     for e in serrs:
         c.failures.append(Failure('correspondence', 'coq evaluation of server cases failed: ' + e))
     for i in sbad[:3]:
         sc, which, case = sinfo[i]
         c.failures.append(Failure('correspondence', 'model and implementation disagree on the %s allocator built by Server for client %d (options %s): allocator-level history %s' % (
             which, sc['client'], sc['opts'], case), replay={'server_case': sc, 'allocator': which, 'case': case}))
+    if scitems:
+        cb, ce = fw.check_shards(ctx, 'setclient', HEADER, scitems, 'Eval vm_compute in bad_idx check_setclient cases.', shard=200)
+        for e in ce:
+            c.failures.append(Failure('correspondence', 'coq evaluation of _set_client_id cases failed: ' + e))
+        for i in cb[:3]:
+            sc, e = scinfo[i]
+            c.failures.append(Failure('search', '_set_client_id(%d) on a server with client id %d and options %s: client id became %d, allocators rebuilt: %s '
+                                      '(ids outside 0..max_logins-1 must be refused and change nothing; ids inside must rebuild every allocator)' % (
+                                          e['v'], e['c0'], e['opts'], e['c1'], e['rebuilt']), signature='C16:set-client-id',
+                                      replay={'server_case': sc, 'setclient': e}, found_input=True, theorem='set_client_id_refuses_foreign_ids / set_client_id_rebuilds_from_current_options'))
     if snode:
         nb, ne = fw.check_shards(ctx, 'srvnode', HEADER, snode, 'Eval vm_compute in bad_idx check_node cases.', shard=100)
         for e in ne:
@@ -491,6 +527,59 @@ def search(ctx, failures):
     res = ctx.impl('c16_search', {'seed': ctx.seed, 'count': ctx.n(4000, 40000), 'corpus': corpus})
     found = []
     seen = set()
+    # option-dependent construction: draining every allocator of every client with single indices must yield EXACTLY the client's
+    # share of the right index space after the right reserved count (reference computed here from the options, no model involved)
+    try:
+        rng = ctx.rng
+        optsets = []
+        for f in failures:
+            sc = (f.replay or {}).get('server_case')
+            if sc and sc.get('opts') not in optsets:
+                optsets.append(sc['opts'])
+        for _ in range(4):
+            logins = rng.choice([2, 3, 4])
+            optsets.append({'max_logins': logins, 'input_channels': rng.choice([0, 1, 2]), 'output_channels': rng.choice([1, 2]),
+                            'audio_buses': 3 + logins * rng.choice([6, 7]) + rng.choice([0, 1]), 'control_buses': logins * rng.choice([5, 6]) + 1,
+                            'buffers': logins * rng.choice([4, 5]), 'reserved_audio_buses': rng.choice([0, 1, 2]),
+                            'reserved_control_buses': rng.choice([3, 4]), 'reserved_buffers': rng.choice([0, 1, 3]), 'initial_node_id': 1000})
+        dcases, dmeta = [], []
+        for o in optsets[:8]:
+            io = o['input_channels'] + o['output_channels']
+            shares = {'audio': ((o['audio_buses'] - io) // o['max_logins'], io, o['reserved_audio_buses']),
+                      'control': (o['control_buses'] // o['max_logins'], 0, o['reserved_control_buses']),
+                      'buffer': (o['buffers'] // o['max_logins'], 0, o['reserved_buffers'])}
+            if any(per <= resv for per, _, resv in shares.values()):
+                continue
+            for k in range(o['max_logins']):
+                ops = []
+                for kind, which in (('A', 'audio'), ('C', 'control'), ('B', 'buffer')):
+                    ops += [[kind, 1, 0]] * (shares[which][0] + 1)
+                dcases.append({'opts': o, 'client': k, 'ops': ops})
+                dmeta.append(shares)
+        dres = ctx.impl('c16_server', {'cases': dcases})['cases'] if dcases else []
+        for dc, shares, dr in zip(dcases, dmeta, dres):
+            if 'segments' not in dr:
+                continue
+            for seg in dr['segments']:
+                if seg['server'] != 0:
+                    continue
+                which = seg['which']
+                per, base, resv = shares[which]
+                want = list(range(base + per * dc['client'] + resv, base + per * (dc['client'] + 1)))
+                got = [x[1][1] for x in seg['log'] if x[0][0] == 'a' and x[1][0] == 1]
+                if got != want and 'C16:option-construction' not in seen:
+                    seen.add('C16:option-construction')
+                    ctor = {'AudioBus': 'audio', 'ControlBus': 'control', 'Buffer': 'buffer'}
+                    name = [n for n, w in ctor.items() if w == which][0]
+                    found.append(Failure('search', 'Server options %s, client id %d: %d successive %s(1) objects got the indices %s, but the client\'s share of the '
+                                         '%s index space after its reserved indices is %s' % (dc['opts'], dc['client'], per + 1, name, got, which, want),
+                                         signature='C16:option-construction',
+                                         replay={'options': dc['opts'], 'client': dc['client'], 'allocator': which, 'got': got, 'expected': want,
+                                                 'replay_cmd': "sc3.init('nrt'); s = Server.default; set s.options fields; s._set_client_id(%d); [%s(1, s).%s for _ in range(%d)]" % (
+                                                     dc['client'], name, 'bufnum' if which == 'buffer' else 'index', per + 1)},
+                                         found_input=True, theorem='server_live_range_in_own_share'))
+    except fw.ImplError as e:
+        fw.log('option-construction search failed: %s' % e)
     # partitions the Server builds for the client ids of one server must be pairwise disjoint and inside the index space
     try:
         optsets = [{'max_logins': 4, 'input_channels': 2, 'output_channels': 2, 'audio_buses': 68, 'control_buses': 40, 'buffers': 32,
